@@ -373,6 +373,35 @@ impl SimNode {
         generate_sync(&self.bookie, self.actor()).await
     }
 
+    /// versions the node itself regards as completely buffered (by the last_seq it kept) and not applied yet:
+    /// it owes an apply trigger for each (sent from a spawned task).  Used to drive the schedule only.
+    pub async fn complete_partials(&self) -> Vec<(ActorId, u64)> {
+        let booked: Vec<(ActorId, klukai_types::agent::Booked)> = { self.bookie.read::<&str, _>("sched", None).await.iter().map(|(a, b)| (*a, b.clone())).collect() };
+        let mut out = vec![];
+        for (a, b) in booked {
+            let r = b.read::<&str, _>("sched", None).await;
+            for (v, p) in r.partials.iter() {
+                if p.seqs.gaps(&(CrsqlSeq(0)..=p.last_seq)).next().is_none() {
+                    out.push((a, v.0));
+                }
+            }
+        }
+        out.sort();
+        out
+    }
+
+    /// in-memory partial versions the node keeps for `actor`, for traces
+    pub async fn partials_repr(&self, actor: ActorId) -> String {
+        let booked = { self.bookie.read::<&str, _>("trace", None).await.get(&actor).cloned() };
+        match booked {
+            Some(b) => {
+                let r = b.read::<&str, _>("trace", None).await;
+                format!("max {:?} needed {:?} partials {:?}", r.last(), r.needed().iter().collect::<Vec<_>>(), r.partials.iter().map(|(v, p)| format!("v{} seqs {:?} last {}", v.0, p.seqs.iter().map(|s| (s.start().0, s.end().0)).collect::<Vec<_>>(), p.last_seq.0)).collect::<Vec<_>>())
+            }
+            None => "unknown actor".into(),
+        }
+    }
+
     /// what a restart would load for `actor` (BookedVersions::from_conn on a fresh read connection)
     pub async fn reloaded(&self, actor: ActorId) -> SimResult<BookedVersions> {
         let conn = self.agent.pool().read().await?;
@@ -408,6 +437,22 @@ impl SimNode {
     pub async fn dump_cells(&self) -> SimResult<Vec<Cell>> {
         let conn = self.agent.pool().read().await?;
         tokio::task::block_in_place(|| dump_cells_conn(&conn))
+    }
+
+    /// what is left in the two buffer tables, for messages
+    pub async fn buffer_leftovers(&self) -> SimResult<String> {
+        let conn = self.agent.pool().read().await?;
+        tokio::task::block_in_place(|| {
+            let seqs: Vec<String> = conn
+                .prepare("SELECT hex(site_id), db_version, start_seq, end_seq, last_seq FROM __corro_seq_bookkeeping ORDER BY 1,2,3")?
+                .query_map([], |r| Ok(format!("{}.. v{} seqs {}..={} last {}", &r.get::<_, String>(0)?[..6], r.get::<_, i64>(1)?, r.get::<_, i64>(2)?, r.get::<_, i64>(3)?, r.get::<_, i64>(4)?)))?
+                .collect::<rusqlite::Result<_>>()?;
+            let rows: Vec<String> = conn
+                .prepare(r#"SELECT hex(site_id), db_version, seq, "table" FROM __corro_buffered_changes ORDER BY 1,2,3"#)?
+                .query_map([], |r| Ok(format!("{}.. v{} seq {} {}", &r.get::<_, String>(0)?[..6], r.get::<_, i64>(1)?, r.get::<_, i64>(2)?, r.get::<_, String>(3)?)))?
+                .collect::<rusqlite::Result<_>>()?;
+            Ok(format!("seq records {seqs:?}, buffered rows {rows:?}"))
+        })
     }
 
     pub async fn count(&self, sql: &str) -> SimResult<i64> {
@@ -641,27 +686,29 @@ impl OriginModel {
     pub fn on_deliver(&mut self, c: &Changeset) -> Option<u64> {
         match c {
             Changeset::Empty { versions, .. } => {
-                for v in versions.start().0..=versions.end().0 {
-                    if v == 0 {
-                        continue;
-                    }
-                    if !self.held.contains(&v) {
-                        // a version that is completely buffered and only waits for its apply step counts as known:
-                        // the node ignores the Empty and goes on to apply what it has (BookedVersions::contains)
-                        if self.covered(v) {
-                            continue;
-                        }
-                        // complete by one supplier's last_seq only: which of the two the node does depends on the
-                        // declaration it kept - no demand until an apply step settles it
-                        if self.ambiguous(v) {
+                let vs = || (versions.start().0..=versions.end().0).filter(|v| *v != 0);
+                self.max = self.max.max(versions.end().0);
+                // A version that is completely buffered and only waits for its apply step counts as known.  The
+                // node ignores an Empty *all* of whose versions it knows (BookedVersions::contains_all) and goes on
+                // to apply what it has; an Empty with at least one unknown version is processed for its whole range,
+                // and then the buffered chunks of the others go too (the supplier says they are empty by now).
+                if vs().all(|v| self.held.contains(&v) || self.covered(v)) {
+                    return None;
+                }
+                // complete by one supplier's last_seq only: whether the node regards the version as known depends
+                // on the declaration it kept - no demand about the buffered ones until an apply step settles it
+                if vs().all(|v| self.held.contains(&v) || self.covered(v) || self.ambiguous(v)) {
+                    for v in vs() {
+                        if !self.held.contains(&v) {
                             self.undetermined.insert(v);
-                            continue;
                         }
                     }
+                    return None;
+                }
+                for v in vs() {
                     self.held.insert(v);
                     self.partial.remove(&v);
                 }
-                self.max = self.max.max(versions.end().0);
                 None
             }
             Changeset::EmptySet { .. } => None,
